@@ -241,6 +241,10 @@ func Float64ToTime(f float64, location *time.Location) time.Time {
 		dec := ar[1] + strings.Repeat("0", 9-len(ar[1]))
 		return strconv.ParseInt(dec, 10, 64)
 	})()
+	if f < 0 {
+		// the sign is written once, in front of the integral part, and belongs to the fraction as well
+		nsec = -nsec
+	}
 
 	return TimeFromUnixTime(sec, nsec, location)
 }
